@@ -21,17 +21,23 @@ Print Assumptions C02_nth_exact.
 (* One An+B record on an element, any `of S` list, forward or -last-, child or -of-type, from ANY consistent
    memo: the answer is the closed form at the element's position among the counted siblings (sib_val: element
    nodes only; matching S; of the same type), provided no sibling's `of S` evaluation raises. *)
-Theorem C02_match_nth_one : forall bidi cx f0 e p a var b of_type (last : bool) s m pos,
-  let f := S f0 in
+Theorem C02_match_nth_one : forall bidi cx f e p a var b of_type (last : bool) s m pos,
   good cx m ->
   let sibs := sibs_of cx p in
   let walk := if last then rev sibs else sibs in
   (forall q n, In (q, n) sibs -> is_elem n = true -> sl_sels s <> [] -> sval bidi cx f e s q <> None) ->
   (sl_sels s <> [] -> sval bidi cx f e s p = Some true) ->
   pos_of (map (sib_val bidi cx f e p of_type s) walk) 0 = Some pos ->
-  exists m', match_nth bidi cx (S f) e p [SNth a var b of_type last s] m = Ok (nth_closed a b var pos, m') /\ good cx m'.
+  exists m', match_nth1 bidi cx (S f) e p (SNth a var b of_type last s) m = Ok (nth_closed a b var pos, m') /\ good cx m'.
 Proof. exact match_nth_one. Qed.
 Print Assumptions C02_match_nth_one.
+
+(* several positional pseudo-classes on one compound are a conjunction (so :only-child = :first-child:last-child) *)
+Theorem C02_records_are_a_conjunction : forall bidi cx fuel e p n rest m,
+  match_nth bidi cx fuel e p (n :: rest) m =
+  bindM (match_nth1 bidi cx fuel e p n) (fun b => if b then match_nth bidi cx fuel e p rest else ret false) m.
+Proof. exact match_nth_conj. Qed.
+Print Assumptions C02_records_are_a_conjunction.
 
 Example C02_nonvacuous :
   nth_pure 2 1 true 5 [(true, false); (false, false); (true, false); (true, true); (true, false)] = Some true /\
